@@ -21,6 +21,7 @@ import time
 VERIF = os.path.dirname(os.path.dirname(os.path.abspath(__file__)))
 LEAN = os.path.join(VERIF, 'lean')
 REPO = os.environ.get('GEPARD_REPO', '/repo')
+os.makedirs(os.path.join(VERIF, 'replays'), exist_ok=True)      # scratch + replay files (not committed)
 PYDEPS = os.path.join(VERIF, '.pydeps')
 ALLOWED_AXIOMS = {'propext', 'Classical.choice', 'Quot.sound'}
 FORBIDDEN = re.compile(r'\b(sorry|admit|native_decide|bv_decide|implemented_by|unsafe)\b|^\s*axiom\s|maxHeartbeats\s+0\b')
